@@ -1,11 +1,64 @@
 /-
-Model driver for C07: plain linear trace validator for the Reader pipeline machine
-(`Osmium.Pipeline.Trace.stepLine`: `cfg …`, one fully specified event per line
-`<tid> <tag> <qid> <arg> <payload>`, `end`; one output line per input line: ok / reject / skip /
-final summary).  The scheduling validator used by the checks of C05 and C07 is model_c05
-(lean/Driver/C05.lean); this one replays an already linearised run with `step?` only.
+Model driver for C07.
+
+1. plain linear trace validator for the Reader pipeline machine
+   (`Osmium.Pipeline.Trace.stepLine`: `cfg …`, one fully specified event per line
+   `<tid> <tag> <qid> <arg> <payload>`, `end`; one output line per input line: ok / reject / skip /
+   final summary).  The scheduling validator used by the checks of C05 and C07 is model_c05
+   (lean/Driver/C05.lean); this one replays an already linearised run with `step?` only.
+
+2. truncation sweep of the PBF framing readers (Model/PbfFd.lean):
+
+     trunc <strict 0|1> <piece> <hex of the complete file> <cuts: a-b,c,...>
+
+   for every cut k the outcome of `PBFParser::run` on the first k bytes, through the input-queue
+   reader (`readAll`) and through the direct-fd reader (`readAllFd`, read(2) returning at most
+   `piece` bytes per call; 0 = no short reads), with the real `decode_blob_header` and the real limits:
+
+     T <k>:<queue outcome>:<fd outcome> ...        outcome = ok<n> | eh | ed<n>
+   (ok<n>: normal return after n data blobs; eh: exception before the header is known; ed<n>:
+   exception after n complete data blobs).  `strict` = `Fixes.lengthStrict`.
 -/
 import Osmium.Model.Pipeline
+import Osmium.Model.PbfFd
 import Driver.Common
 
-def main : IO Unit := Driver.loop Osmium.Pipeline.Trace.stepLine .none
+open Osmium Osmium.PbfFd
+
+def outcomeName : Outcome → String
+  | .ok n => s!"ok{n}"
+  | .errHeader => "eh"
+  | .errData n => s!"ed{n}"
+
+def parseCuts (spec : String) (n : Nat) : List Nat :=
+  (spec.splitOn ",").flatMap fun tok =>
+    match tok.splitOn "-" with
+    | [a] => match a.toNat? with
+      | some a => if a ≤ n then [a] else []
+      | none => []
+    | [a, b] => match a.toNat?, b.toNat? with
+      | some a, some b => (List.range (min b n + 1 - a)).map (· + a)
+      | _, _ => []
+    | _ => []
+
+def truncLine (strict piece hex cuts : String) : String :=
+  match Driver.unhex hex, piece.toNat? with
+  | some bytes, some piece =>
+    let fx : Fixes := { lengthStrict := strict == "1" }
+    let mh := PbfFraming.maxBlobHeaderSize
+    let mb := PbfFraming.maxUncompressedBlobSize
+    let out := (parseCuts cuts bytes.length).map fun k =>
+      let p := bytes.take k
+      let q := outcome (readAll fx mh mb PbfFraming.blobSize p)
+      let sched := if piece == 0 then [] else List.replicate (k / piece + 8) piece
+      let f := outcome (readAllFd fx mh mb PbfFraming.blobSize { data := p, sched := sched })
+      s!"{k}:{outcomeName q}:{outcomeName f}"
+    "T " ++ " ".intercalate out
+  | _, _ => "bad-op"
+
+def step (sim : Osmium.Pipeline.Trace.Sim) (line : String) : Osmium.Pipeline.Trace.Sim × String :=
+  match Driver.words line with
+  | ["trunc", strict, piece, hex, cuts] => (sim, truncLine strict piece hex cuts)
+  | _ => Osmium.Pipeline.Trace.stepLine sim line
+
+def main : IO Unit := Driver.loop step .none
